@@ -360,6 +360,7 @@ impl Index {
         let mut fai_reader = csv::ReaderBuilder::new()
             .delimiter(b'\t')
             .has_headers(false)
+            .quoting(false)
             .from_reader(fai);
         for (rid, row) in fai_reader.deserialize().enumerate() {
             let record: IndexRecord = row?;
